@@ -6,6 +6,7 @@ snapshot of the *current* contents, for every operation sequence.
 import Midgard.Model.ObjCache
 import Mathlib.Tactic.SplitIfs
 import Mathlib.Tactic.Common
+import Mathlib.Algebra.BigOperators.Group.List.Basic
 
 set_option linter.unusedVariables false
 set_option linter.unusedSimpArgs false
@@ -75,6 +76,40 @@ theorem closure_spec (objs : List Obj) (n : Nat) :
     · exact h1 _ (ha htn)
     · exact h2 t ht htn
 
+/-- with enough budget the structurally recursive traversal is the depth-first closure -/
+theorem closureF_eq (objs : List Obj) :
+    ∀ (unv todo acc : List Nat) (fuel : Nat), budget objs unv todo ≤ fuel →
+      closureF objs fuel unv todo acc = closure objs unv todo acc := by
+  intro unv todo acc
+  induction unv, todo, acc using closure.induct (objs := objs) with
+  | case1 unv acc =>
+    intro fuel _
+    rw [closure]
+    cases fuel <;> rfl
+  | case2 unv a rest acc hmem ih =>
+    intro fuel hf
+    rw [closure, if_pos hmem]
+    have hsum := List.sum_map_erase (fun a => 1 + (depsOf objs a).length) hmem
+    cases fuel with
+    | zero =>
+      simp only [budget, List.length_cons] at hf
+      omega
+    | succ f =>
+      simp only [closureF, if_pos hmem]
+      apply ih
+      simp only [budget, List.length_cons, List.length_append] at hf ⊢
+      omega
+  | case3 unv a rest acc hmem ih =>
+    intro fuel hf
+    rw [closure, if_neg hmem]
+    cases fuel with
+    | zero => simp only [budget, List.length_cons] at hf; omega
+    | succ f =>
+      simp only [closureF, if_neg hmem]
+      apply ih
+      simp only [budget, List.length_cons] at hf ⊢
+      omega
+
 /-- what `clearSet` (transitive) computes: a set containing `o` and closed under dependency lists -/
 theorem clearSet_closed (s : State) (o : Nat) (ho : o < s.objs.length) :
     o ∈ clearSet ⟨true, true⟩ s o ∧
@@ -82,6 +117,7 @@ theorem clearSet_closed (s : State) (o : Nat) (ho : o < s.objs.length) :
   have h := closure_spec s.objs s.objs.length (List.range s.objs.length) [o] []
     List.nodup_range (by intro x; simp) (by intro a ha; simp at ha)
   simp only [clearSet, if_true]
+  rw [closureF_eq s.objs _ _ _ _ (Nat.le_refl _)]
   exact ⟨h.2.1 o (by simp) ho, h.2.2⟩
 
 /-! ### Reachability along dependency lists -/
